@@ -1514,12 +1514,17 @@ class EBPF(EBPFBase):
         self.owners |= registers
         save = []
         with ExitStack() as exitStack:
+            # registers are saved because a function call follows, which
+            # clobbers r0 to r5: those cannot hold a saved value
+            clobbered = set(range(6)) - self.owners
+            self.owners |= clobbered
             for i in registers:
                 if i in oldowners:
                     tmp = exitStack.enter_context(self.get_free_register(None))
                     self.append(Opcode.MOV+Opcode.LONG+Opcode.REG,
                                 tmp, i, 0, 0)
                     save.append((tmp, i))
+            self.owners -= clobbered
             yield
             for tmp, i in save:
                 self.append(Opcode.MOV+Opcode.LONG+Opcode.REG, i, tmp, 0, 0)
